@@ -36,6 +36,14 @@ def check(run):
     from .common import shared_rule
     from .c11 import joinrepr
     shared_rule(run, joinrepr, (run, p), 'C11-JOINREPR', 'C12-JOINREPR', ' (so the test compares the file the command wrote)')
+    # a binary output that changed makes its test fail: the comparison the generated assertBinaryFileCorrect calls, evaluated
+    from .c15 import binary_cases
+    run.rule('C12-BINARY', 'check_binary_file, evaluated on an in-memory file system, fails for byte strings that differ anywhere - first '
+                           'byte, beyond a 64 KiB block, in length only (one a prefix of the other, the shorter ending exactly on a block '
+                           'boundary, or empty) - and passes identical ones')
+    nb = []
+    run.attempt(lambda: nb.append(binary_cases(run, p, p.cls('FilesComparison'), 'C12-BINARY')))
+    run.floor('C12-BINARY', nb[0] if nb else 0, 10)
     from .common import gotcha_rule
     n = gotcha_rule(run, 'C12-WHOLESTR', p, ['tdda.referencetest.gentest', 'tdda.referencetest.utils', 'tdda.referencetest.diffrex'],
                     'names and machine-specific strings are handled whole: no constant written ("text") - a one-element tuple without '
